@@ -1,5 +1,5 @@
 """Declared sorts of attributes (audited at run time by rtc: the run-time type of every attribute read equals its declared sort)."""
-from pyvc.dsl import sorts
+from pyvc.dsl import sorts, write_once
 
 sorts(
     pointers="set", child_pointers="set",
@@ -10,3 +10,15 @@ sorts(
     _overflow="bool", _literals="set", MAX_LITERALS="int", MAX_STRING_LENGTH="int",
     _models_cmp="tuple", **{"_models_cmp[]": "obj:ModelCmp", "ext:sys.argv": "list", "merge": "list", "merge[]": "str", "ext:sys.argv[]": "str"}, types="list", replaces="set",
 )
+
+# A StringLiteral never changes after its constructor returned: a call that is not that constructor leaves these attributes of every
+# object it did not create as they were.  Obligation write-once@<attr> re-checks the premise on the package source on every run.
+write_once("_overflow", "_literals")
+
+# setattr(obj, <computed name>, value) cannot be resolved syntactically.  The sites below are exempted with a recorded reason (trusted,
+# listed in the evidence); a computed setattr anywhere else leaves write-once@<attr> undischarged.
+WRITE_ONCE_DYNAMIC_SITES_JUSTIFIED = [
+    {"module": "json_to_models/models/string_converters.py",
+     "why": "decorators applied to *generated* model classes and their instances at the run time of the generated code; they receive user "
+            "model classes / instances, never IR nodes (StringLiteral is slotted and is not reachable from generated modules)"},
+]
